@@ -747,6 +747,11 @@ class Interp:
                 coll = self._len_source.get(a.name)
                 if coll is not None:
                     return RepList(b[0], coll)
+            for x, y in ((a, b), (b, a)):
+                if isinstance(y, Sym) and y.name.startswith("len(") and isinstance(x, str) and x:
+                    coll = self._len_source.get(y.name)
+                    if coll is not None:
+                        return AStr([Rep(coll, x, "")])
         if isinstance(op, ast.Pow) and isinstance(a, int) and isinstance(b, int) and b < 100:
             return a ** b
         if isinstance(op, ast.Mod) and is_strlike(a):
@@ -1524,6 +1529,11 @@ class Interp:
         raise Unsupported("method %s on %r at line %s" % (attr, base, node.lineno))
 
     def str_join(self, sep, coll):
+        if isinstance(coll, AStr) and len(coll.parts) == 1 and isinstance(coll.parts[0], Rep) and coll.parts[0].sep == "" \
+                and isinstance(coll.parts[0].template, str) and len(coll.parts[0].template) == 1:
+            # the characters of "<c>" * len(xs): one <c> per element
+            r = coll.parts[0]
+            return AStr([Rep(r.over, r.template, sep.literal() if sep.is_concrete() else sep.render())])
         if isinstance(coll, RepList):
             return AStr([Rep(coll.over, coll.template, sep.literal() if sep.is_concrete() else sep.render())])
         if isinstance(coll, Opaque):
